@@ -249,3 +249,37 @@ Example C01_roundtrip_typed_desc_inhabited :
                 | None => []
                 end) (expect (new_muxer 40) [] rtt_hist) = [[]; [ex_typed_loop]; []; []; [ex_typed_loop]; []].
 Proof. split; [exact rtt_history_ok|exact rtt_expect_shape]. Qed.
+
+(* ---- ... and for descriptors AS THE CALLER WRITES THEM ----
+   A caller rarely passes a descriptor in parsed form: the struct's Length is usually left 0 (the writer ignores it) and
+   nothing stops him from leaving bodies of other tags set.  op_parsed o on relates two calls that are equal except that
+   AddElementaryStream receives, in [ops], ANY descriptor list of C14's domain (Forall2 wf_entry ds ds': each entry inside
+   the round-trip domain of its tag, whatever its Length and the bodies of other tags hold) and, in [opsn], its parsed
+   form ds'.  C01_mux_written_bytes: the Muxer returns the same results and counts and emits the same bytes for both
+   histories, call by call (a lock-step simulation over every operation: the Muxer reads descriptors only through
+   writeDescriptorsWithLength and the two length sums, which C14_parsed_form_is_normal shows equal).
+   C01_roundtrip_typed_desc_written: hence demultiplexing what the Muxer wrote for [ops] yields exactly
+   [expect] of [opsn] -- every PMT lists the streams with their descriptors in parsed form (derived Length filled in,
+   zero-item bodies as bare headers), everything else as in C01_roundtrip. *)
+Require Import Proofs.RoundTripNorm.
+
+Theorem C01_mux_written_bytes : forall period ops opsn, Forall2 op_parsed ops opsn ->
+  snd (mux_run (new_muxer period) opsn) = snd (mux_run (new_muxer period) ops).
+Proof. exact mux_written_bytes. Qed.
+Print Assumptions C01_mux_written_bytes.
+
+Theorem C01_roundtrip_typed_desc_written : forall period ops opsn,
+  Forall2 op_parsed ops opsn -> history_ok typed_desc (new_muxer period) opsn ->
+  demux_all (concat (map mout_bytes (snd (mux_run (new_muxer period) ops)))) =
+  map Ok (expect (new_muxer period) [] opsn).
+Proof. exact roundtrip_history_written. Qed.
+Print Assumptions C01_roundtrip_typed_desc_written.
+
+(* satisfiable: the stream of C01_roundtrip_typed_desc_inhabited added with Length fields 0 / 99 / 200, a content
+   descriptor whose item list is empty and a stray user-defined body behind the stream identifier (ex_typed_written) *)
+Example C01_roundtrip_typed_desc_written_inhabited :
+  Forall2 op_parsed rtt_hist_written rtt_hist /\ history_ok typed_desc (new_muxer 40) rtt_hist /\
+  map PMTElementaryStream_ElementaryStreamDescriptors
+      (match rtt_hist_written with MAdd e :: _ => [e] | _ => [] end) = [ex_typed_written] /\
+  ex_typed_written <> ex_typed_loop.
+Proof. split; [exact rtt_hist_parsed|]. split; [exact rtt_history_ok|]. split; [reflexivity|discriminate]. Qed.
